@@ -2,7 +2,8 @@
  * public API only (+ _dispatch_iocntl to shrink the chunk size so that operations take several
  * pread/pwrite rounds and interleave round-robin).
  * usage: drv_iorand <vectors.txt> <out.txt> <tmpdir>
- * vector line:  unit pages flen base nphases { nops { k off len } }       (k: 0 read, 1 write; len 99 = SIZE_MAX)
+ * vector line:  unit pages flen base nphases { nops stop { k off len } }  (k: 0 read, 1 write; len 99 = SIZE_MAX;
+ *               stop 1: dispatch_io_close(DISPATCH_IO_STOP) right after the batch was submitted)
  * output:       "R v p i calls dones after_done err total crc"  per operation,
  *               "F v p len crc"                                  file contents after each phase,
  *               "C v cleanups err"                               cleanup handler
@@ -69,6 +70,7 @@ int main(int argc, char **argv)
 		}
 		lseek(fd, (off_t)(base * unit), SEEK_SET);
 		__block long cleanups = 0, cerr = 0;
+		int closed = 0;
 		dispatch_semaphore_t csem = dispatch_semaphore_create(0);
 		dispatch_queue_t cq = dispatch_queue_create("iorand.chq", NULL);
 		dispatch_io_t ch = dispatch_io_create(DISPATCH_IO_RANDOM, fd, cq, ^(int e) {
@@ -76,8 +78,8 @@ int main(int argc, char **argv)
 		});
 		if (!ch) { fprintf(stderr, "dispatch_io_create failed\n"); return 2; }
 		for (long p = 1; p <= nph; p++) {
-			long nops;
-			if (fscanf(in, "%ld", &nops) != 1 || nops > MAXOPS) return 2;
+			long nops, stop;
+			if (fscanf(in, "%ld %ld", &nops, &stop) != 2 || nops > MAXOPS) return 2;
 			struct opst *st = calloc((size_t)nops, sizeof *st);
 			dispatch_group_t g = dispatch_group_create();
 			for (long i = 0; i < nops; i++) {
@@ -127,6 +129,12 @@ int main(int argc, char **argv)
 					dispatch_release(d);
 				}
 			}
+			if (stop) {
+				/* race the stop against the batch: sometimes at once, sometimes after a few chunks */
+				if ((v + p) % 3) usleep((unsigned)((v * 37 + p * 11) % 400));
+				dispatch_io_close(ch, DISPATCH_IO_STOP);
+				closed = 1;
+			}
 			if (dispatch_group_wait(g, dispatch_time(DISPATCH_TIME_NOW, 30ll * NSEC_PER_SEC))) {
 				fprintf(stderr, "HANG vector %d phase %ld\n", v, p); _exit(3);
 			}
@@ -145,7 +153,7 @@ int main(int argc, char **argv)
 			dispatch_release(g);
 			free(st);
 		}
-		dispatch_io_close(ch, 0);
+		if (!closed) dispatch_io_close(ch, 0);
 		dispatch_release(ch);
 		if (dispatch_semaphore_wait(csem, dispatch_time(DISPATCH_TIME_NOW, 30ll * NSEC_PER_SEC))) {
 			fprintf(stderr, "HANG cleanup vector %d\n", v); _exit(3);
